@@ -901,6 +901,135 @@ theorem tri_readGpos3 (f : Font) (fuel B : Nat) (h : B < fuel) : Tri B (readGpos
   intro subs _
   exact tri_pure _ _
 
+theorem tri_optionalIdentifier_dec (B : Nat) (name : List Nat) :
+    Tri B (optionalIdentifier name) (fun b => if b then 1 else 0) pT := by
+  intro s g _
+  obtain ⟨t, s1, h, g1, hm, _, g2, hm2⟩ := readItem_spec s g
+  unfold optionalIdentifier
+  rw [bind_run, h]
+  simp only []
+  by_cases hc : isIdent t name = true
+  · simp only [hc, if_true, pure_run]
+    have : nt t = 1 := by
+      have ht : t.typ = tIdentifier := by
+        simp only [isIdent, Bool.and_eq_true, beq_iff_eq] at hc
+        exact hc.1
+      simp [nt, Tok.terminal, ht, tIdentifier, tEOF, tError]
+    exact ⟨g1, by first | omega | (simp; omega), trivial⟩
+  · have hc' : isIdent t name = false := by simpa using hc
+    simp only [hc', Bool.false_eq_true, if_false, bind_run, pushBack_run, pure_run]
+    exact ⟨g2, by simp; omega, trivial⟩
+
+theorem tri_readUint16 (B : Nat) : Tri B readUint16 d0 pT := by
+  unfold readUint16
+  refine tri_bind (tri_readItem B) ?_
+  intro t _
+  split
+  · exact tri_fatal _ _ _ _
+  · cases atoi t.bytes with
+    | none => exact tri_fatal _ _ _ _
+    | some v =>
+      simp only []
+      split
+      · exact tri_fatal _ _ _ _
+      · split
+        · exact tri_fatal _ _ _ _
+        · exact tri_pure _ _
+
+theorem tri_recLoop {α : Type} (kw : List Nat) (one : List α → PM α) : ∀ (n B : Nat) (acc : List α),
+    B ≤ n → (∀ acc B', B' ≤ B → Tri B' (one acc) d0 pT) → Tri B (recLoop kw one n acc) d0 pT := by
+  intro n
+  induction n with
+  | zero => intro B acc h _; have : B = 0 := by omega
+            subst this; exact tri_zero _ _ _
+  | succ n ih =>
+    intro B acc h hone
+    unfold recLoop
+    refine tri_bind (tri_optionalIdentifier_dec B kw) ?_
+    intro b _
+    cases b with
+    | false => simp only [Bool.not_false, if_true]; exact tri_pure _ _
+    | true =>
+      simp only [Bool.not_true, Bool.false_eq_true, if_false]
+      refine tri_bind (hone acc _ (by simp)) ?_
+      intro item _
+      refine tri_bind (tri_opt0 _ [tSemicolon] (by decide) (by decide)) ?_
+      intro _ _
+      refine tri_bind (tri_opt0 _ [tEOL] (by decide) (by decide)) ?_
+      intro _ _
+      exact ih _ _ (by simp [d0]; omega) (fun acc B' hB => hone acc B' (by simp [d0] at hB; omega))
+
+theorem tri_markOne (f : Font) (fuel B : Nat) (h : B ≤ fuel) (acc : List (Nat × Nat × Int × Int)) :
+    Tri B (markOne f fuel acc) d0 pT := by
+  unfold markOne
+  refine tri_bind (tri_readGlyph f fuel _ h) ?_
+  intro gid _
+  refine tri_ite (fun _ => tri_fatal _ _ _ _) (fun _ => ?_)
+  refine tri_bind (tri_opt0 _ [tColon] (by decide) (by decide)) ?_
+  intro _ _
+  refine tri_bind (tri_readUint16 _) ?_
+  intro cls _
+  refine tri_bind (tri_required _ _) ?_
+  intro _ _
+  refine tri_bind (tri_readInt16 _) ?_
+  intro x _
+  refine tri_bind (tri_required _ _) ?_
+  intro _ _
+  refine tri_bind (tri_readInt16 _) ?_
+  intro y _
+  exact tri_pure _ _
+
+theorem tri_anchorsLoop : ∀ (k B i : Nat) (acc : List (Int × Int)), Tri B (anchorsLoop k i acc) d0 pT := by
+  intro k
+  induction k with
+  | zero => intro B i acc; unfold anchorsLoop; exact tri_pure _ _
+  | succ k ih =>
+    intro B i acc
+    unfold anchorsLoop
+    have h1 : Tri B (if (i == 0) = true then (pure false : PM Bool) else optional [tComma]) d0 pT :=
+      tri_ite (fun _ => tri_pure _ _) (fun _ => tri_opt0 _ [tComma] (by decide) (by decide))
+    refine tri_bind h1 ?_
+    intro _ _
+    refine tri_bind (tri_required _ _) ?_
+    intro _ _
+    refine tri_bind (tri_readInt16 _) ?_
+    intro x _
+    refine tri_bind (tri_required _ _) ?_
+    intro _ _
+    refine tri_bind (tri_readInt16 _) ?_
+    intro y _
+    exact ih _ _ _
+
+theorem tri_baseOne (f : Font) (fuel k B : Nat) (h : B ≤ fuel) (acc : List (Nat × List (Int × Int))) :
+    Tri B (baseOne f fuel k acc) d0 pT := by
+  unfold baseOne
+  refine tri_bind (tri_readGlyph f fuel _ h) ?_
+  intro gid _
+  refine tri_ite (fun _ => tri_fatal _ _ _ _) (fun _ => ?_)
+  refine tri_bind (tri_opt0 _ [tColon] (by decide) (by decide)) ?_
+  intro _ _
+  refine tri_bind (tri_anchorsLoop _ _ _ _) ?_
+  intro anchors _
+  exact tri_pure _ _
+
+theorem tri_gpos4Sub (f : Font) (fuel B : Nat) (h : B ≤ fuel) : Tri B (gpos4Sub f fuel) d0 pT := by
+  unfold gpos4Sub
+  refine tri_bind (tri_recLoop kwMark _ fuel B [] h (fun acc B' hB => tri_markOne f fuel B' (by omega) acc)) ?_
+  intro marks _
+  refine tri_ite (fun _ => tri_fatal _ _ _ _) (fun _ => ?_)
+  refine tri_bind (tri_recLoop kwBase _ fuel _ [] (by simp [d0]; omega)
+    (fun acc B' hB => tri_baseOne f fuel _ B' (by simp [d0] at hB; omega) acc)) ?_
+  intro bases _
+  exact tri_pure _ _
+
+theorem tri_readGpos4 (f : Font) (fuel B : Nat) (h : B < fuel) : Tri B (readGpos4 f fuel) d0 pT := by
+  unfold readGpos4
+  refine tri_bind (tri_header fuel B (by omega)) ?_
+  intro flags _
+  refine tri_bind (tri_subtablesLoop _ fuel _ [] (by simp [d0]; omega) (fun B' hB => tri_gpos4Sub f fuel B' (by simp [d0] at hB; omega))) ?_
+  intro subs _
+  exact tri_pure _ _
+
 theorem tri_parseLoop (f : Font) (fuel : Nat) : ∀ (n B : Nat) (acc : List Lookup), B ≤ n → B < fuel →
     Tri B (parseLoop f fuel n acc) d0 pT := by
   intro n
@@ -943,6 +1072,9 @@ theorem tri_parseLoop (f : Font) (fuel : Nat) : ∀ (n B : Nat) (acc : List Look
       · refine tri_bind p2 ?_; intro l _; exact ih _ _ (by simp [d0]; omega) (by simp [d0]; omega)
       refine tri_ite (fun _ => ?_) (fun _ => ?_)
       · refine tri_bind (tri_readGpos3 f fuel (B - nt item) hbf) ?_
+        intro l _; exact ih _ _ (by simp [d0]; omega) (by simp [d0]; omega)
+      refine tri_ite (fun _ => ?_) (fun _ => ?_)
+      · refine tri_bind (tri_readGpos4 f fuel (B - nt item) hbf) ?_
         intro l _; exact ih _ _ (by simp [d0]; omega) (by simp [d0]; omega)
       refine tri_ite (fun _ => tri_throw_unmodelled _ _ _) (fun _ => tri_fatal _ _ _ _)
 
